@@ -44,7 +44,7 @@ ERR_FIELDS = ["meta", "build", "metaEnv"]              # sections: not strings
 SORT_FIELDS = ["meta.prio", "build.date", "metaEnv.STAGE", "meta.package", "meta.nosuch", "build.date", "meta.prio"]
 OPS = ["<", "<=", ">", ">=", "==", "!="]
 LEVEL = {"!": 1, "<": 2, "<=": 3, ">": 4, ">=": 5, "==": 6, "!=": 7, "&&": 8, "||": 9}
-BAD_TEXTS = ["", "meta.package ==", "\"abc", "LIMIT", "meta.package == \"root\" LIMIT",
+BAD_TEXTS = ["", "meta.package ==", "\"abc", "meta.step == \"dist\" ||", "meta.package == \"root\" LIMIT",
              "meta.package == \"root\" ORDER BY build.date", "meta.package = \"root\"",
              "meta.package == \"root\" LIMIT x", "(meta.package == \"root\"", "meta.package == 'root'",
              "meta.package == \"root\" LIMIT 1 ORDER build.date", "&& meta.step == \"dist\""]
